@@ -141,9 +141,11 @@ def run(ctx):
     ctx.count("gen_write_reference_sites", n_sites)
     ctx.floor("write reference sites in gen", n_sites, 4)
     # ------------------------------------------------------------ names
+    holders = [gfc] + [f for f in index.funcs.values() if f.outer is gfc]
     appends = [
-        n
-        for n in iter_own(gfc.node)
+        (h, n)
+        for h in holders
+        for n in iter_own(h.node)
         if isinstance(n, ast.Call)
         and isinstance(n.func, ast.Attribute)
         and n.func.attr == "append"
@@ -152,20 +154,26 @@ def run(ctx):
     ctx.need(len(appends) >= 1, "global__all__.append vanished from get_functions_and_classes")
     ok = len(appends) == 1
     ctx.ob("C19.names", gfc, "exactly one global__all__.append", ok, "" if ok else "{} appends".format(len(appends)), line=gfc.node.lineno)
-    app = appends[0]
+    holder, app = appends[0]
     all_expr = norm(app.args[0]) if app.args else ""
-    # unconditional per element: parent chain up to the generator element is only `or` of None-returning calls
-    p = gfc.mod.parents.get(app)
-    uncond = isinstance(p, ast.BoolOp) and isinstance(p.op, ast.Or)
-    if uncond:
-        idx_in = p.values.index(app)
-        for v in p.values[:idx_in]:
-            if not (isinstance(v, ast.Call) and norm(v.func) in ("print", "global__all__.append")):
+    # unconditional, once per input element: no conditional construct between the append and its function
+    uncond = True
+    child, p = app, holder.mod.parents.get(app)
+    while p is not None and p is not holder.node:
+        if isinstance(p, ast.BoolOp):
+            if isinstance(p.op, ast.Or):
+                for v in p.values[: p.values.index(child)]:
+                    if not (isinstance(v, ast.Call) and norm(v.func) in ("print", "global__all__.append")):
+                        uncond = False
+            else:
                 uncond = False
-        gp = gfc.mod.parents.get(p)
-        comp = gp if isinstance(gp, (ast.GeneratorExp, ast.ListComp)) else None
-        uncond = uncond and comp is not None and comp.elt is p and not any(g.ifs for g in comp.generators)
-    ctx.ob("C19.names", gfc, app, uncond, "" if uncond else "__all__ append is conditional or not once per input element")
+        elif isinstance(p, (ast.If, ast.IfExp, ast.While, ast.Try)):
+            uncond = False
+        elif isinstance(p, (ast.GeneratorExp, ast.ListComp)):
+            if any(g.ifs for g in p.generators) or p.elt is not child:
+                uncond = False
+        child, p = p, holder.mod.parents.get(p)
+    ctx.ob("C19.names", holder, app, uncond, "" if uncond else "__all__ append is conditional or not once per input element")
     # emitter side: get_emit_kwarg's name expression
     lam_calls = [n for n in iter_own(gek.node) if isinstance(n, ast.Call) and isinstance(n.func, ast.Lambda)]
     ctx.need(len(lam_calls) == 1 and lam_calls[0].args, "get_emit_kwarg no longer has the (lambda _name: table[emit_name])(name expr) shape")
@@ -192,9 +200,9 @@ def run(ctx):
         else "name handed to the emitter is `{}` but __all__ receives `{}`".format(emit_expr, all_expr),
     )
     # get_functions_and_classes passes name_tpl and name through unchanged
-    gek_calls = [n for n in iter_own(gfc.node) if isinstance(n, ast.Call) and index.callee(gfc.mod, n, gfc) == gek.qual]
+    gek_calls = [(h, n) for h in holders for n in iter_own(h.node) if isinstance(n, ast.Call) and index.callee(h.mod, n, h) == gek.qual]
     ctx.need(gek_calls, "get_emit_kwarg call vanished")
-    for c in gek_calls:
+    for _h, c in gek_calls:
         bound = {}
         for i, a in enumerate(c.args):
             if i < len(gek.params):
@@ -211,7 +219,7 @@ def run(ctx):
     except Unknown as x:
         ctx.need(False, "cannot fold sanitise_emit_name: {}".format(x))
     always_kw = set()
-    for n in iter_own(gfc.node):
+    for n in [x for h in holders for x in iter_own(h.node)]:
         if isinstance(n, ast.Call) and isinstance(n.func, ast.Name) and n.func.id == "emitter":
             always_kw = {k.arg for k in n.keywords if k.arg}
             n_pos = len(n.args)
@@ -297,6 +305,139 @@ def run(ctx):
     ctx.samples = rows
     ctx.exhaustive = True
     del choices
+    _samepath(ctx, index, graph, gen)
+    _oneshot(ctx, index, graph, gen)
+    _future(ctx, index)
+
+
+def _samepath(ctx, index, graph, gen):
+    """
+    The refuse-if-exists test in main looks at the raw `output_filename`; gen and the writers it
+    calls must write exactly that path: the parameter is never rebound / normalised on the way.
+    """
+    from ..walker import assigned_names
+
+    reach = graph.reachable([gen.qual])
+    n = 0
+    for q in sorted(reach):
+        f = index.funcs.get(q)
+        if f is None or f.mod.is_test or "output_filename" not in f.params:
+            continue
+        n += 1
+        rebound = "output_filename" in assigned_names(f.node.body)
+        ctx.ob(
+            "C19.guard",
+            f,
+            "output_filename is written as given",
+            not rebound,
+            ""
+            if not rebound
+            else "output_filename is rebound/normalised after main's refuse-if-exists test looked at the raw "
+            "value: the guard and the write can refer to different files (e.g. `~/x.py`)",
+            line=f.node.lineno,
+        )
+        # handed on unchanged
+        for c in iter_own(f.node):
+            if isinstance(c, ast.Call):
+                callee = index.callee(f.mod, c, f)
+                if callee in index.funcs and "output_filename" in index.funcs[callee].params:
+                    tf = index.funcs[callee]
+                    a = None
+                    for k in c.keywords:
+                        if k.arg == "output_filename":
+                            a = k.value
+                    i = tf.params.index("output_filename")
+                    if a is None and i < len(c.args):
+                        a = c.args[i]
+                    if a is not None:
+                        ok = isinstance(a, ast.Name) and a.id == "output_filename"
+                        ctx.ob(
+                            "C19.guard",
+                            f,
+                            c if len(norm(c)) < 120 else "{}(... output_filename={})".format(norm(c.func), norm(a)),
+                            ok,
+                            "" if ok else "a transformed path `{}` is handed to {}".format(norm(a), tf.short),
+                            line=c.lineno,
+                        )
+    ctx.count("functions_carrying_output_filename", n)
+    ctx.floor("functions carrying output_filename", n, 3)
+
+
+def _oneshot(ctx, index, graph, gen):
+    """no one-shot iterator is consumed twice on the gen pipeline (else symbols vanish from the module)"""
+    from ..oneshot import OneShot
+
+    o = OneShot(index, index.nontest_funcs())
+    reports = o.analyse()
+    reach = graph.reachable([gen.qual])
+    ctx.count("one_shot_iterator_names", o.sites)
+    ctx.floor("one-shot iterator names analysed", o.sites, 4)
+    hit = False
+    for f, name, u1, u2 in reports:
+        msg = (
+            "`{}` may be a one-shot iterator (map/filter/generator, or the result of a function returning "
+            "one) and is consumed at line {} and again at line {}: the second consumer sees nothing".format(
+                name, u1.lineno, u2.lineno
+            )
+        )
+        if f.qual in reach:
+            hit = True
+            ctx.ob("C19.oneshot", f, "{} consumed twice".format(name), False, msg, line=u2.lineno)
+        else:
+            ctx.note("one-shot iterator consumed twice outside the gen pipeline: {} {}".format(f.qual, msg))
+    if not hit:
+        ctx.ob("C19.oneshot", gen, "no one-shot iterator consumed twice on the gen pipeline", True, line=gen.node.lineno)
+
+
+def _future(ctx, index):
+    """gen_module must single out `__future__` imports when it orders the import block"""
+    f = index.func("cdd.compound.gen_utils.gen_module")
+    hits = [
+        n
+        for n in iter_own(f.node)
+        if isinstance(n, ast.Compare)
+        and any(isinstance(c, ast.Constant) and c.value == "__future__" for c in [n.left] + n.comparators)
+    ]
+    in_order = False
+    for n in hits:
+        p = f.mod.parents.get(n)
+        while p is not None and p is not f.node:
+            if isinstance(p, ast.Call) and norm(p.func) in ("sorted", "filter", "partition") or isinstance(p, ast.keyword) and p.arg == "key":
+                in_order = True
+            p = f.mod.parents.get(p)
+    ok = bool(hits) and in_order
+    ctx.ob(
+        "C19.future",
+        f,
+        "`__future__` imports are recognised when the import block is ordered",
+        ok,
+        ""
+        if ok
+        else "nothing in gen_module's ordering step distinguishes `from __future__ import ...` any more: with "
+        "--prepend/--imports-from-file it can end up after another import and the written module does not compile",
+        line=f.node.lineno,
+    )
+    if ok:
+        # and the ordering puts them first: key `== "__future__"` with reverse=True, or `!=` without
+        for n in hits:
+            p = f.mod.parents.get(n)
+            call = None
+            while p is not None and p is not f.node:
+                if isinstance(p, ast.Call) and norm(p.func) == "sorted":
+                    call = p
+                p = f.mod.parents.get(p)
+            if call is not None:
+                rev = any(k.arg == "reverse" and isinstance(k.value, ast.Constant) and k.value.value is True for k in call.keywords)
+                is_eq = isinstance(n.ops[0], ast.Eq)
+                first = (is_eq and rev) or (isinstance(n.ops[0], ast.NotEq) and not rev)
+                ctx.ob(
+                    "C19.future",
+                    f,
+                    "sorted(..., key=<is __future__>, reverse={})".format(rev),
+                    first,
+                    "" if first else "the sort key sends `__future__` imports to the END of the import block",
+                    line=call.lineno,
+                )
 
 
 def _symbol_name_params(index, tf):
